@@ -195,7 +195,7 @@ pub fn run_block(p: &mut JPair, c: &BlockCase, scope: Scope) -> Result<RunInfo, 
     let self_bank_switch = bank_after_a != p.rom_bank && (c.pc >= 0x4000 || crosses);
     // translated
     p.b.set_regs(&c.regs);
-    if p.b.cache_used() > 0x600000 {
+    if p.b.cache_used() > 0x400000 {
         p.b.cache_reset();
         p.tcache.clear();
     }
@@ -366,7 +366,7 @@ impl<'a> L1<'a> {
         code.extend_from_slice(term);
         p.unplace();
         p.place(L1_PC, &code);
-        if p.b.cache_used() > 0x600000 {
+        if p.b.cache_used() > 0x400000 {
             p.b.cache_reset();
             p.tcache.clear();
         }
